@@ -1,4 +1,5 @@
 import Dtr.Model.RowIter
+import Dtr.Model.Dig
 /-!
 # Line-protocol driver of the executable model (`lean_exe dtr_model`)
 
@@ -343,6 +344,67 @@ def cmdTables (_ : Cur) : Array String :=
     "funcs random:" ++ toString ((funcArity "random").getD 99) ++ " ite:" ++ toString ((funcArity "ite").getD 99) ++
       " signExt:" ++ toString ((funcArity "signExt").getD 99)]
 
+/-! ## `.dig` documents: the DOM dump of the hook is read back -/
+
+partial def readXml : List String → Option (Xml × List String)
+  | "(" :: "o" :: ")" :: rest => some (.other, rest)
+  | "(" :: "t" :: h :: ")" :: rest => some (.text (unhex h), rest)
+  | "(" :: "e" :: tag :: "(" :: rest =>
+    let rec attrs (ts : List String) (acc : List (String × String)) : Option (List (String × String) × List String) :=
+      match ts with
+      | ")" :: rest => some (acc, rest)
+      | "(" :: k :: v :: ")" :: rest => attrs rest (acc ++ [(unhex k, unhex v)])
+      | _ => none
+    match attrs rest [] with
+    | none => none
+    | some (as, rest) =>
+      let rec kids (ts : List String) (acc : List Xml) : Option (List Xml × List String) :=
+        match ts with
+        | ")" :: rest => some (acc, rest)
+        | _ => match readXml ts with
+          | some (c, rest) => kids rest (acc ++ [c])
+          | none => none
+      match kids rest [] with
+      | some (cs, rest) => some (.elem (unhex tag) as cs, rest)
+      | none => none
+  | _ => none
+
+/-- every parenthesis becomes a token of its own -/
+def xmlTokens (s : String) : List String :=
+  let padded := String.ofList (s.toList.flatMap fun c => if c == '(' || c == ')' then [' ', c, ' '] else [c])
+  (padded.splitOn " ").filter (· ≠ "")
+
+def loadLine (tag : String) (r : LoadRes) : String :=
+  match r with
+  | .ok tc => tag ++ " ok " ++ dumpTestCase tc
+  | .indexOutOfBounds => tag ++ " err index"
+  | .notFound => tag ++ " err notfound"
+  | .parseErr _ => tag ++ " err parse"
+  | .bindErr => tag ++ " err bind"
+  | .panic m => tag ++ " panic " ++ m
+
+/-- `dig <dom dump tokens…> | <hexname>*` — the names to look up follow a `|` -/
+def cmdDig (c : Cur) : Array String := Id.run do
+  let all := " ".intercalate c.toks
+  let parts := all.splitOn " | "
+  let dump := parts.headD ""
+  let names := ((parts.drop 1).headD "").splitOn " " |>.filter (· ≠ "")
+  match readXml (xmlTokens dump) with
+  | none => return #["dig bad-dump"]
+  | some (doc, _) =>
+    match digParse doc with
+    | .panic m => return #["dig panic " ++ m]
+    | .err .emptyTest => return #["dig err", "# emptytest"]
+    | .err (.missingSignals _) => return #["dig err", "# missing"]
+    | .ok f =>
+      let mut out : Array String := #["dig ok signals=" ++ dumpSignals f.signals ++ " tests=[" ++
+        " ".intercalate (f.tests.map fun t => "(" ++ hexOfString t.name ++ " " ++ hexOfString t.source ++ ")") ++ "]"]
+      for i in List.range (f.tests.length + 1) do
+        out := out.push (loadLine ("load " ++ toString i) (loadTest f i))
+      for n in names do
+        out := out.push (loadLine ("byname " ++ n) (loadTestByName f (unhex n)))
+      return out
+
 def handle (line : String) : Array String :=
   let toks := (line.trimAscii.toString.splitOn " ").filter (· ≠ "")
   match toks with
@@ -353,6 +415,7 @@ def handle (line : String) : Array String :=
   | "binop" :: rest => cmdBinop ⟨rest⟩
   | "unop" :: rest => cmdUnop ⟨rest⟩
   | "tables" :: rest => cmdTables ⟨rest⟩
+  | "dig" :: rest => cmdDig ⟨rest⟩
   | _ => #["bad-request"]
 
 partial def loop (h : IO.FS.Stream) (out : IO.FS.Stream) : IO Unit := do
